@@ -523,6 +523,34 @@ RangesCase(n) ==
                ppar |-> [j \in 1..k |-> ToWireAbs(SubSeq(n, j + 1, k))]],
       dev |-> <<>>]
 
+---------------------------------------------------------------------------
+(* mode "affix": starts_with / ends_with / strip_suffix on pairs of names *)
+(* whose label *contents* imitate the wire form of the other operand (a   *)
+(* label "x\003com" ends, octet-wise, in the wire form of "com"): suffix  *)
+(* and prefix are relations between label sequences (Names.tla), compared *)
+(* label by label without regard to ASCII case, never between octets.     *)
+
+ALabs == {<<99, 111, 109>>,                                         \* com
+          <<67, 79, 77>>,                                           \* COM
+          <<120, 3, 99, 111, 109>>,                                 \* x\003com
+          <<101, 120, 97, 109, 112, 108, 101>>,                     \* example
+          <<97, 7, 101, 120, 97, 109, 112, 108, 101, 3, 99, 111, 109>>}   \* a\007example\003com
+ANames(m) == UNION {{[i \in 1..j |-> f[i]] : f \in [1..j -> ALabs]} : j \in 0..m}
+AffixSet == {<<x, y>> : x \in ANames(3), y \in ANames(2)}
+IsPrefixName(p, n) == Len(p) <= Len(n) /\ NameEq(SubSeq(n, 1, Len(p)), p)
+AffixCase(v) ==
+  LET x == v[1]
+      y == v[2]
+      suf == IsSuffixOf(y, x)
+      pre == IsPrefixName(y, x)
+      left == ToWireRel(SubSeq(x, 1, Len(x) - Len(y)))
+  IN [in |-> [k |-> "affix", x |-> ToWireRel(x), y |-> ToWireRel(y)],
+      \* r*: both relative; a*: x and (for ends / strip) y absolute
+      exp |-> [rends |-> suf, rstarts |-> pre, aends |-> suf, astarts |-> pre,
+               rstrip |-> IF suf THEN <<"ok", left>> ELSE <<"err", ToWireRel(x)>>,
+               astrip |-> IF suf THEN <<"ok", left>> ELSE <<"err", ToWireAbs(x)>>],
+      dev |-> <<>>]
+
 \* (the builder variables of NameBuilder.tla are not used here)
 NInit == /\ st = InitSt /\ last = NoCall
          /\ \/ mode = "name" /\ val \in NameSet
@@ -534,6 +562,7 @@ NInit == /\ st = InitSt /\ last = NoCall
             \/ mode = "zscan" /\ val \in ZScanSet
             \/ mode = "parsed" /\ val \in ParsedSet
             \/ mode = "ranges" /\ val \in RNames
+            \/ mode = "affix" /\ val \in AffixSet
 NNext == UNCHANGED <<mode, val, st, last>>
 NSpec == NInit /\ [][NNext]_<<mode, val, st, last>>
 
@@ -548,4 +577,5 @@ Emit ==
     [] mode = "zscan" -> PrintT("CASE " \o ToJson(ZScanCase(val)))
     [] mode = "parsed" -> PrintT("CASE " \o ToJson(ParsedCase(val)))
     [] mode = "ranges" -> PrintT("CASE " \o ToJson(RangesCase(val)))
+    [] mode = "affix" -> PrintT("CASE " \o ToJson(AffixCase(val)))
 =============================================================================
